@@ -44,7 +44,19 @@ func (*c12) Decode(raw json.RawMessage) (any, error) {
 
 func (*c12) Execute(ci any) any { return c12Execute(ci.(eng.History)) }
 
-func (*c12) CoqCase(ci, oi any) string { return eng.CoqCase(ci.(eng.History), oi.(c12Obs).Obs) }
+// CoqCase: the model gets Helm's hook order but the delete policies the chart DECLARES, so that a policy lost
+// in parsing shows as a correspondence mismatch too
+func (*c12) CoqCase(ci, oi any) string {
+	h, o := ci.(eng.History), oi.(c12Obs).Obs
+	steps := make([]eng.StepObs, len(o.Steps))
+	copy(steps, o.Steps)
+	for i, s := range h.Steps {
+		if i < len(steps) && s.Op != nil && (s.Op.Kind == "install" || s.Op.Kind == "upgrade") {
+			steps[i].RHooks = withDeclared(steps[i].RHooks, s.Op.Hooks)
+		}
+	}
+	return eng.CoqCase(h, eng.Obs{Steps: steps})
+}
 
 // the probe of DESIGN.md: hb(-1), hd(0), ha(5), hz(5) with mixed policies
 func probeHooks(ev ...string) []eng.Hook {
@@ -124,6 +136,14 @@ func (*c12) Corpus() []any {
 	out = append(out, hist(c12Op("install", 1, eng.Flags{}, recHooks, "a"),
 		wf(c12Op("upgrade", 2, eng.Flags{Atomic: true}, recHooks, "a", "b"))))
 	out = append(out, hist(wf(c12Op("install", 1, eng.Flags{Atomic: true}, recHooks, "a"))))
+	// 5c. an explicit "before-hook-creation,hook-failed" (and the other orders / combinations that name
+	//     before-hook-creation explicitly) on a hook that runs at install AND at upgrade: the resource left by
+	//     the first run must be deleted before the second creation
+	for _, pol := range [][]string{{"before-hook-creation", "hook-failed"}, {"hook-failed", "before-hook-creation"},
+		{"before-hook-creation"}, {"before-hook-creation", "hook-succeeded", "hook-failed"}} {
+		hp := []eng.Hook{hk("hp", 0, []string{"pre-install", "pre-upgrade", "post-upgrade"}, pol...)}
+		out = append(out, hist(c12Op("install", 1, eng.Flags{}, hp, "a"), c12Op("upgrade", 2, eng.Flags{}, hp, "a")))
+	}
 	// 6. equal weight and name under two kinds: the kind-sorted input order decides (stable sort)
 	st := []eng.Hook{
 		{Res: cm("hx", "d:h", "1"), Events: []string{"pre-install"}, Weight: 1},
